@@ -119,7 +119,7 @@ def _attach_cov(sv, covf, k=0):
 
 
 # --------------------------------------------------------------------------- OPM
-def opm_group(fmt_fixed, kep_fixed):
+def opm_group(fmt_fixed, kep_fixed, tier="quick"):
     from beyond.io import ccsds
     from beyond.orbits.man import ImpulsiveMan, ContinuousMan
     import datetime
@@ -128,14 +128,21 @@ def opm_group(fmt_fixed, kep_fixed):
         fmt = fmt_fixed
         ctx = choice("context", 3)                      # (time scale, frame) vary together
         scale, frame = SCALES[ctx], FRAMES[ctx]
-        covf = COV_FRAMES[choice("cov", 4)]
-        ud = choice("user_defined", 3)                   # 0, 1 or 2 user-defined parameters
+        if tier == "quick":                              # quick: 3 covariance frames, 0 or 2 user-defined parameters
+            covf = COV_FRAMES[choice("cov", 3)]
+            ud = 2 * choice("user_defined", 2)
+        else:
+            covf = COV_FRAMES[choice("cov", 4)]
+            ud = choice("user_defined", 3)               # 0, 1 or 2 user-defined parameters
         kep = kep_fixed
         nman = choice("nman", 3)
         sv = _mk_sv(frame, scale)
         mans = []
         for k in range(nman):
-            kind = choice(f"kind{k}", 2)
+            # impulsive, or continuous with its reference date at the start / middle / end of the burn (first maneuver;
+            # the second continuous maneuver is always referenced by its middle)
+            kind = choice(f"kind{k}", 4 if k == 0 else 2)
+            pos = ["start", "start", "median", "stop"][kind] if k == 0 else "median"
             mf = MAN_FRAMES[choice(f"mframe{k}", 3)]
             com = "burn %d" % k if (choice(f"comment{k}", 2) if k == 0 else 1) else None
             md = sv.date + datetime.timedelta(seconds=600.25 * (k + 1))
@@ -143,13 +150,13 @@ def opm_group(fmt_fixed, kep_fixed):
             if kind == 0:
                 mans.append(ImpulsiveMan(md, dv, frame=mf, comment=com))
             else:
-                mans.append(ContinuousMan(md, datetime.timedelta(seconds=120.5 + k), dv=dv, frame=mf, comment=com))
+                mans.append(ContinuousMan(md, datetime.timedelta(seconds=120.5 + k), dv=dv, frame=mf, comment=com, date_pos=pos))
         sv.maneuvers = mans
         _attach_cov(sv, covf)
         UD = {0: None, 1: {"FOO": "bar"}, 2: {"FOO": "bar", "ANSWER": "42"}}[ud]
         if UD:
             sv._data["ccsds_user_defined"] = dict(UD)
-        cfg = dict(fmt=fmt, scale=scale, frame=frame, cov=covf, user_defined=ud, kep=kep, mans=[type(m).__name__[0] + str(m.frame) for m in mans])
+        cfg = dict(fmt=fmt, scale=scale, frame=frame, cov=covf, user_defined=ud, kep=kep, mans=[type(m).__name__[0] + str(m.frame) + (getattr(m, "date_pos", "") or "") for m in mans])
         try:
             if frame == "ITRF" and kep:
                 kep = 0          # keplerian block is only meaningful in an inertial frame
@@ -334,7 +341,7 @@ def groups(tier):
     g = {"oem": oem_group, "omm": omm_group}
     for f in ("kvn", "xml"):
         for k in (0, 1):
-            g[f"opm_{f}_{'kep' if k else 'nokep'}"] = (lambda f=f, k=k: opm_group(f, k))
+            g[f"opm_{f}_{'kep' if k else 'nokep'}"] = (lambda f=f, k=k: opm_group(f, k, tier))
     return g
 
 
